@@ -138,6 +138,15 @@ def handle (st : St) (args : List String) (impl : String) : St × Verdict :=
       let ctx : Ctx := { ct := c, denied := den, prev := prev, window := w, skipPow := skip, powOk := pok }
       (st, cmpAccept (showExc Err.name (validateHeader ctx h)) impl)
     | _, _, _, _, _, _, _ => (st, .unknown)
+  | [via, skip, pok, rok, prev, h, w] =>
+    if via = "pbh" || via = "sync" || via = "pb" then
+      match bool? skip, bool? pok, bool? rok, optHdr? prev, hdr? h, window? w with
+      | some skip, some pok, some rok, some prev, some h, some w =>
+        let ctx : Ctx := { ct := .automatedTesting, denied := false, prev := prev, window := w,
+                           skipPow := skip, powOk := pok }
+        (st, cmpAccept (showExc Err.name (processBlockHeader ctx rok h)) impl)
+      | _, _, _, _, _, _ => (st, .unknown)
+    else (st, .unknown)
   | ["uhdr", c, now, ftl, sok, h] =>
     match ct? c, int? now, nat? ftl, bool? sok, hdr? h with
     | some c, some now, some ftl, some sok, some h =>
